@@ -453,7 +453,7 @@ struct InflateSession {
                         feed = 0;
                 if (feed > remaining)
                         feed = remaining;
-                bool resumable_hdr = (mode == ISAL_GZIP && hdr_len > 10) || (mode == ISAL_ZLIB && hdr_len > 2);
+                bool resumable_hdr = mode == ISAL_GZIP && hdr_len > 10; // (the zlib FDICT half of F1 is fixed: 6-byte headers are split freely)
                 if (avoiding(plan, "F1") && resumable_hdr && fed < hdr_len && fed + feed < hdr_len) {
                         feed = (uint32_t) (hdr_len - fed); // steer away from open finding F1: never split an optional-field gzip header
                         if (feed > remaining)
